@@ -435,3 +435,13 @@ Theorem C03_node_count_canonical_size_subpairs : forall d lvl k f c0 pr,
   In pr (subpairs lvl d k f c0) <-> exists q, bchoice q /\ pr = pair_at lvl d k f c0 q.
 Proof. exact subpairs_In. Qed.
 Print Assumptions C03_node_count_canonical_size_subpairs.
+
+Theorem C03_node_count_canonical_size_examples :
+  canon_size_bdd (nlevels ex_snap) (cfun_of ex_snap (ex_edge (RN 3))) = 5%N /\
+  count_reach ex_snap (ex_edge (RN 3)) = 5%N /\
+  canon_size_bdd 4 (lvl_fun (0 :: 1 :: 2 :: 3 :: nil) (fun a => orb (andb (a 0) (a 1)) (andb (a 2) (a 3)))) = 6%N /\
+  canon_size_bdd 4 (lvl_fun (0 :: 2 :: 1 :: 3 :: nil) (fun a => orb (andb (a 0) (a 1)) (andb (a 2) (a 3)))) = 8%N /\
+  canon_size_bdd 3 (fun _ => true) = 1%N /\
+  canon_size_bdd 3 (fun c => Nat.eqb (c 1) 0) = 3%N.
+Proof. exact ex_canon_size. Qed.
+Print Assumptions C03_node_count_canonical_size_examples.
